@@ -138,7 +138,7 @@ Qed.
 
 Lemma C14_use_canon_bound : C14_use_canon_bound_stmt.
 Proof.
-  intros x p name c x' H. unfold handle_canon_executed in H.
+  intros k x p c x' H. unfold handle_canon_executed in H.
   destruct (resolve_peer_id_to_string x p) as [peer|e|s|w]; cbn [lift] in H; try discriminate.
   destruct (negb (cid_mem c (cs_canon_results (x_cids x)))); [discriminate|].
   destruct c as [| | | | |tc vcs|]; try discriminate.
@@ -150,7 +150,7 @@ Qed.
 
 Lemma C14_use_canon_mismatch : C14_use_canon_mismatch_stmt.
 Proof.
-  intros x p name peer t vcs Hp Hr Ht Hne. unfold handle_canon_executed. rewrite Hp. cbn [lift]. rewrite Hr, Ht. cbn [negb].
+  intros k x p peer t vcs Hp Hr Ht Hne. unfold handle_canon_executed. rewrite Hp. cbn [lift]. rewrite Hr, Ht. cbn [negb].
   unfold verify_canon. destruct (tetraplet_eqb (canon_tetraplet peer) t) eqn:E.
   - apply tetraplet_eqb_eq in E. congruence.
   - reflexivity.
